@@ -107,3 +107,17 @@ Lemma b_gb_group : forall (keys : list Z) (data : list Z) s e,
 Proof. bridge. Qed.
 Lemma b_join_fields : gen_join_key_field = 0 /\ gen_join_payload_field = 1.
 Proof. bridge. Qed.
+
+(* ---------- operand order of ufuncs on graph nodes; orientation of stranded rows ---------- *)
+(* both __array_ufunc__ hand the operands on in the order they were written: the model's ufunc node keeps the
+   template [left; right] (fill_args), so `c - x` and `x - c` are different nodes *)
+Lemma b_ufunc_operand_order : forall o c (x : list Z),
+  gen_ufunc_operand_order = "as_written"%string /\ gen_track_ufunc_operand_order = "as_written"%string
+  /\ apply_ufunc o (fill_args [OConst c; ONode 0%nat] [GL x]) = GL (map (bop_eval o c) x)
+  /\ apply_ufunc o (fill_args [ONode 0%nat; OConst c] [GL x]) = GL (map (fun v => bop_eval o v c) x).
+Proof. intros. repeat split; reflexivity. Qed.
+(* strand code 0 is the symbol both worlds compare with; such rows stay forward, all others are reversed *)
+Lemma b_stranded_forward : forall row,
+  gen_stranded_forward_symbol = "+"%string /\ gen_stranded_forward_symbol_mem = "+"%string
+  /\ orient 0 row = row /\ orient 1 row = rev row /\ orient 2 row = rev row.
+Proof. intros. repeat split; reflexivity. Qed.
